@@ -1829,7 +1829,7 @@ func allSitesIn(fn *ssa.Function, set map[*ssa.Function]bool) bool {
 func helperIsSplit(h *ssa.Function) bool {
 	for _, r := range Returns(h) {
 		for _, v := range RetVals(r) {
-			if v.Type().String() != "error" {
+			if TStr(v.Type()) != "error" {
 				continue
 			}
 			found := false
@@ -1880,7 +1880,7 @@ func c1Errors(c *Ctx, rule string) {
 			if IsNilConst(x) {
 				x, y = y, x
 			}
-			if !IsNilConst(y) || x.Type().String() != "error" {
+			if !IsNilConst(y) || TStr(x.Type()) != "error" {
 				return nil
 			}
 			errBlock := iff.Block().Succs[0]
@@ -1949,7 +1949,7 @@ func c1Errors(c *Ctx, rule string) {
 			noEarly := true
 			for _, cl := range CallsDeep(addTo) {
 				call, ok := cl.(*ssa.Call)
-				if !ok || call.Type().String() != "error" || helperOf(call) != nil && curProgRoot(helperOf(call)) && len(Returns(helperOf(call))) > 0 && inRegion(addTo, helperOf(call)) && helperIsSplit(helperOf(call)) {
+				if !ok || TStr(call.Type()) != "error" || helperOf(call) != nil && curProgRoot(helperOf(call)) && len(Returns(helperOf(call))) > 0 && inRegion(addTo, helperOf(call)) && helperIsSplit(helperOf(call)) {
 					continue
 				}
 				n++
@@ -1978,7 +1978,7 @@ func c1Errors(c *Ctx, rule string) {
 			for i := 0; i < it.NumMethods(); i++ {
 				m := it.Method(i)
 				sig := m.Type().(*types.Signature)
-				if sig.Results().Len() == 1 && sig.Results().At(0).Type().String() == "error" {
+				if sig.Results().Len() == 1 && TStr(sig.Results().At(0).Type()) == "error" {
 					targets[FNm(m)] = true
 				}
 			}
@@ -1992,7 +1992,7 @@ func c1Errors(c *Ctx, rule string) {
 				continue
 			}
 			f := CalleeFunc(call)
-			if f == nil || !targets[FNm(f)] || call.Type().String() != "error" {
+			if f == nil || !targets[FNm(f)] || TStr(call.Type()) != "error" {
 				continue
 			}
 			if f.Pkg() == nil || !strings.HasPrefix(f.Pkg().Path(), ZapPath) {
